@@ -130,7 +130,10 @@ def dict_to_sid(data: dict, _type: Optional[str] = None) -> str:
     if _type:
         result = r.format_one(data, _type)
     else:
-        name, result = r.format_first(data)
+        _type, result = r.format_first(data)
+
+    if result and not _is_exact(r, _type, r.resolve_one(result, _type), result):
+        return ""  # eg. a value with a trailing newline: the formatted string does not resolve back to the data
 
     return result or ""
 
@@ -160,7 +163,12 @@ def dict_to_type(data: dict, all: bool = False) -> str | List[str]:
     """
 
     r = Resolver.get("sid")
-    found = list(r.format_all(data).keys())
+    # (only types whose formatted string resolves back exactly are kept, see _is_exact)
+    found = [
+        label
+        for label, formatted in r.format_all(data).items()
+        if _is_exact(r, label, r.resolve_one(formatted, label), formatted)
+    ]
 
     if not found:
         info("No type found for {}".format(data))
